@@ -26,6 +26,8 @@ func c11(c *Ctx) {
 	ruleFixedNamePod(c, "C18.R6")
 	ruleSandboxExited(c, "C10.R9")
 	ruleAnyFixedParks(c, "C11.R5")
+	c11R6(c)
+	c11R7(c)
 }
 
 func c11R1(c *Ctx) {
@@ -706,4 +708,131 @@ func c11R3(c *Ctx) {
 		}
 	}
 	c.Check(okTail, "C11.R3", "eniFilter rejects when a filter key is missing", p.Pos(outer), filter.Key(), "if !found { return false } ends every iteration", "not recognised")
+}
+
+// R6: the record's last-seen time survives everything but the two writers of R1.
+// A store of the whole Status struct (a literal, another object's status) is a
+// write of every field: in pkg/controller/pod-eni and pkg/controller/pod no
+// PodENI.Status is assigned as a whole (parking a record — Detaching → Unbind —
+// changes fields one by one and keeps PodLastSeen, which the TTL is counted from).
+func c11R6(c *Ctx) {
+	p := c.P
+	c.Rule("C11.R6", "PodENI.Status is never assigned as a whole in the controllers (a literal or a copy would reset PodLastSeen, from which the TTL of a parked record is counted): status changes are field stores")
+	stF := p.Field(apiPkg, "PodENI", "Status")
+	if stF == nil {
+		c.Unres("C11.R6", "PodENI.Status", "field not found")
+		return
+	}
+	n := 0
+	var scope []*FuncInfo
+	for _, pk := range []string{podCtlPkg, podENICtlPkg} {
+		scope = append(scope, p.FuncsInPkg(pk)...)
+	}
+	for _, s := range p.StoresTo(scope, stF) {
+		if s.InLit {
+			continue // a freshly created record
+		}
+		n++
+		c.Bad("C11.R6", s.Fn.Name+": whole-status store", p.Pos(s.Node), s.Fn.Key(), "field stores only", "Status = "+exprString2(s.Node)+" resets PodLastSeen and every other field")
+	}
+	if n == 0 {
+		c.OK("C11.R6", "no whole-status store in the controllers", "", "", fmt.Sprintf("%d functions examined", len(scope)))
+	}
+	// the built-in stateful kinds stay: utils.stsKinds only ever grows
+	kinds, _ := p.LookupObj("pkg/utils", "stsKinds").(*types.Var)
+	if kinds == nil {
+		c.Unres("C11.R6", "utils.stsKinds", "not found")
+		return
+	}
+	m := 0
+	for _, fn := range p.FuncsInPkg("pkg/utils") {
+		info := fn.Info()
+		ast.Inspect(fn.Decl.Body, func(k ast.Node) bool {
+			as, ok := k.(*ast.AssignStmt)
+			if !ok {
+				return true
+			}
+			for i, l := range as.Lhs {
+				if identObj(info, l) != kinds {
+					continue
+				}
+				m++
+				okApp := false
+				if len(as.Rhs) == len(as.Lhs) {
+					if call, isApp := isBuiltinCall(info, as.Rhs[i], "append"); isApp && len(call.Args) > 0 && identObj(info, call.Args[0]) == kinds {
+						okApp = true
+					}
+				}
+				c.Check(okApp, "C11.R6", fn.Name+": the stateful kinds only grow", p.Pos(as), fn.Key(), "stsKinds = append(stsKinds, …)", exprString2(as)+" can drop the built-in kinds (a StatefulSet pod would stop counting as one whose name survives re-creation)")
+			}
+			return true
+		})
+	}
+	c.Floor("C11.R6", "assignments of utils.stsKinds", 1, m)
+}
+
+// R7: the record lists the collectors decide on are complete. Every List of
+// PodENI records in the pod-eni controller is unpaged: no Limit option (the
+// controller's client reads from the informer cache, which answers a limited
+// list with the first page and no continue token — every record outside the
+// page would look absent and its interface leaked).
+func c11R7(c *Ctx) {
+	p := c.P
+	c.Rule("C11.R7", "every List of PodENI records in pkg/controller/pod-eni is complete: no Limit / paging option is passed (a page of the cached list would make the records outside it look absent to the leak collector)")
+	n := 0
+	for _, fn := range p.FuncsInPkg(podENICtlPkg) {
+		info := fn.Info()
+		for _, cs := range p.CallsIn(fn) {
+			f := cs.Callee
+			if f == nil || f.Name() != "List" || f.Pkg() == nil || f.Pkg().Path() != crClientPkg || len(cs.Call.Args) < 2 {
+				continue
+			}
+			if !typeIs(info.TypeOf(cs.Call.Args[1]), modPath+"/"+apiPkg, "PodENIList") {
+				continue
+			}
+			n++
+			bad := ""
+			for _, a := range cs.Call.Args[2:] {
+				x := ast.Unparen(derefExpr(fn, a))
+				if u, ok := x.(*ast.UnaryExpr); ok && u.Op == token.AND {
+					x = ast.Unparen(u.X)
+				}
+				switch t := x.(type) {
+				case *ast.CompositeLit:
+					for _, e := range t.Elts {
+						if kv, ok := e.(*ast.KeyValueExpr); ok {
+							if k := exprString(kv.Key); k == "Limit" || k == "Continue" {
+								if v, isC := constInt(info, kv.Value); !(isC && v == 0) {
+									bad = k + " option at " + p.Pos(kv)
+								}
+							}
+						}
+					}
+				case *ast.CallExpr:
+					if cf := Callee(info, t); cf != nil && (cf.Name() == "Limit" || cf.Name() == "Continue") {
+						bad = cf.Name() + " option"
+					}
+					if tv, ok := info.Types[t.Fun]; ok && tv.IsType() && (strings.HasSuffix(tv.Type.String(), ".Limit") || strings.HasSuffix(tv.Type.String(), ".Continue")) {
+						bad = tv.Type.String() + " option"
+					}
+				default:
+					// an options variable assigned elsewhere: any store of its Limit field
+					if o := identObj(info, x); o != nil {
+						ast.Inspect(fn.Decl.Body, func(k ast.Node) bool {
+							if as, ok := k.(*ast.AssignStmt); ok {
+								for _, l := range as.Lhs {
+									if sel, ok := ast.Unparen(l).(*ast.SelectorExpr); ok && identObj(info, sel.X) == o && (sel.Sel.Name == "Limit" || sel.Sel.Name == "Continue") {
+										bad = sel.Sel.Name + " set at " + p.Pos(as)
+									}
+								}
+							}
+							return true
+						})
+					}
+				}
+			}
+			c.Check(bad == "", "C11.R7", fn.Name+": the PodENI list is complete", p.Pos(cs.Call), fn.Key(), "client.List without Limit / Continue", bad)
+		}
+	}
+	c.Floor("C11.R7", "lists of PodENI records", 2, n)
 }
